@@ -9,6 +9,8 @@
                 | mem:<type>:<base>:<index>:<disp>      base/index: none i f d ld undecl
      DREG <id> <npre> (<name> <type>)* <name> <type>          MIR_new_func_reg after npre declarations
      DFUNC <id> <vararg> <nres> <type>* <nargs> (<name> <type> <size>)*   MIR_new_func_arr
+     GDECL <id> <use> <n> (<name> <type> <hard reg | ->)*      MIR_new_func_reg / MIR_new_global_func_reg steps;
+                                                               output STEP per step and LOOK <id> <k> <reg> <MIR_reg result>
      PATH <id> <nsteps> (<act> <name>)*                        protocol path, one API call per step
      TEXT <id> <use> <hex of MIR text>                             the same row through MIR_scan_string
      OPCODES <id>                                              list the implementation's opcode names
@@ -346,6 +348,64 @@ static void do_dreg (const char *id) {
   say (id, "link", 0);
 }
 
+/* GDECL <id> <use> <n> (<name> <type> <hard reg | ->)*: declarations in a function f (a1:i64), one verdict per step */
+static void do_gdecl (const char *id) {
+  MIR_context_t ctx = MIR_init ();
+  MIR_var_t farg = {MIR_T_I64, "a1", 0};
+  MIR_module_t m;
+  MIR_item_t f;
+  int use_p = (int) tokl (), n = (int) tokl ();
+  volatile int k;
+
+  MIR_set_error_func (ctx, errf);
+  if (setjmp (jb)) {
+    printf ("MACHINERY gdecl scaffold failed: %s\n", emsg);
+    fflush (stdout);
+    _exit (3);
+  }
+  m = MIR_new_module (ctx, "m");
+  f = MIR_new_func_arr (ctx, "f", 0, NULL, 1, &farg);
+  for (k = 1; k <= n; k++) {
+    const char *name = tok ();
+    MIR_type_t t = str2type (tok ());
+    const char *hr = tok ();
+    MIR_reg_t reg, reg2;
+    if (setjmp (jb)) {
+      printf ("STEP %s %d ERROR %d %s %s\n", id, k, ecode, ename (ecode), emsg);
+      fflush (stdout);
+      return;
+    }
+    reg = strcmp (hr, "-") == 0 ? MIR_new_func_reg (ctx, f->u.func, t, name) : MIR_new_global_func_reg (ctx, f->u.func, t, name, hr);
+    printf ("STEP %s %d ACCEPT\n", id, k);
+    fflush (stdout);
+    if (k < n) continue;
+    /* "Value of type MIR_reg_t is returned by MIR_new_func_reg or can be gotten by function MIR_reg" */
+    if (setjmp (jb)) {
+      printf ("LOOK %s %d %u ERR:%s\n", id, k, (unsigned) reg, ename (ecode));
+      fflush (stdout);
+      return;
+    }
+    reg2 = MIR_reg (ctx, name, f->u.func);
+    printf ("LOOK %s %d %u %u\n", id, k, (unsigned) reg, (unsigned) reg2);
+    fflush (stdout);
+  }
+  if (!use_p) return;
+  if (setjmp (jb)) {
+    say (id, "load", 1);
+    return;
+  }
+  MIR_finish_func (ctx);
+  MIR_finish_module (ctx);
+  MIR_load_module (ctx, m);
+  say (id, "load", 0);
+  if (setjmp (jb)) {
+    say (id, "link", 1);
+    return;
+  }
+  MIR_link (ctx, MIR_set_interp_interface, NULL);
+  say (id, "link", 0);
+}
+
 static void do_dfunc (const char *id) {
   MIR_context_t ctx = MIR_init ();
   MIR_module_t m;
@@ -507,6 +567,8 @@ int main (int argc, char **argv) {
         do_dreg (id);
       else if (strcmp (kind, "DFUNC") == 0)
         do_dfunc (id);
+      else if (strcmp (kind, "GDECL") == 0)
+        do_gdecl (id);
       else if (strcmp (kind, "PATH") == 0)
         do_path (id);
       else if (strcmp (kind, "TEXT") == 0)
